@@ -198,7 +198,7 @@ Init ==
 Next ==
   \/ \E c \in Atoms(file) : AddComment(c)
   \/ Parse \/ Process \/ Finish
-  \/ \E u \in Raises(file) : ErrCreate(u)
+  \/ (phase = "done" /\ elog.n < MaxErrs /\ \E u \in Raises(file) : ErrCreate(u))
   \/ ErrLine \/ ErrFilterAdd
   \/ \E op \in {"set_line", "start_range"}, l \in 0 .. LsMaxLine, m \in BOOLEAN : LsOp(op, l, m)
 
